@@ -135,9 +135,21 @@ func Explore(c *fw.Ctx, mon Monitors) {
 	trees := Trees()
 	reqs := Requests(c.Thorough())
 	c.Note("universe", fmt.Sprintf("%d trees x %d requests per tree (full header product: %v)", len(trees), len(reqs), c.Thorough()))
+	// a slice of the universe also runs on the disk-backed temp dir
+	var disk *Env
+	if d, err := NewDiskEnv(c, mon, "explore"); err == nil {
+		disk = d
+		defer disk.Close()
+	}
+	tmpfs := e
 	for ti, t := range trees {
 		if !c.Mine(ti) {
 			continue
+		}
+		e = tmpfs
+		if disk != nil && (ti/c.NShardsOr1())%c.Pick(12, 4) == 0 {
+			e = disk
+			c.Observe("universe", "trees-on-disk-backed-fs", 1)
 		}
 		c.Observe("universe", "trees", 1)
 		// consistency probes on every stored file
